@@ -1,13 +1,16 @@
 """Grammar-level differential used by C01-C04.
 
-AbbrGrammar.tla builds every abbreviation of the documented grammar from the given syntactic fragments (up to the bound) and
+AbbrGrammar.tla builds every abbreviation of the documented grammar from the given syntactic fragments (up to the bound);
 AbbrConvert.tla - tokenizer, token parser and convert() transcribed from the code, TLC-checked for acceptance, tiling and tree
-shape - computes the node tree for it.  The real emmet.abbreviation.parse() is run on every abbreviation and the listing
-[depth, name, text, self-closing, attributes] is compared on the components the calling property speaks about.
+shape - computes the node tree for it and AbbrPrint.tla (implicit names, attribute merging, the HTML formatter without
+formatting) the markup.  The real emmet.abbreviation.parse() is run on every abbreviation and the listing [depth, name, text,
+self-closing, attributes] is compared on the components the calling property speaks about; then the real expand() is run and its
+output, read by the independent tag lexer, is compared with the model's markup read by the same lexer, again on those components.
 """
 import zlib
 
 import common
+import project_html as ph
 
 NONE = '<<NONE>>'
 UNLIMITED = 1000000
@@ -36,11 +39,18 @@ def _project(nodes, fields):
     return [[n[f] for f in fields] for n in nodes]
 
 
+LEXF = {'d': 'd', 'name': 'n', 'attrs': 'a', 'text': 't', 'sc': 'sc'}
+
+
+def _lexed(text, fields):
+    return [[n.get(LEXF[f]) for f in fields] for n in ph.tree(ph.lex(text)) if n['n'] != '#text']
+
+
 def _chunk(items):
-    common.import_emmet()
+    emmet = common.import_emmet()
     from emmet.abbreviation import parse
     bad = []
-    for s, exp, fields, limit, clause in items:
+    for s, exp, fields, limit, clause, printed in items:
         case = {'abbr': s, 'maxRepeat': limit, 'compared': list(fields)}
         try:
             with common.Alarm(10):
@@ -52,12 +62,36 @@ def _chunk(items):
         e, g = _project(exp['nodes'], fields), _project(got['nodes'], fields)
         if e != g:
             bad.append((clause, dict(case, expected=e, actual=g)))
+            continue
+        # the printed markup (AbbrPrint.tla) against expand(), both read by the tag lexer and compared on the same components
+        cfg = {'options': {'output.format': False, 'output.selfClosingStyle': 'xhtml'}}
+        if limit is not None:
+            cfg['maxRepeat'] = limit
+        try:
+            with common.Alarm(10):
+                text = emmet.expand(s, cfg)
+        except Exception as ex:
+            bad.append(('expand raised', dict(case, exception=type(ex).__name__, site=common.innermost_emmet_frame(ex))))
+            continue
+        try:
+            want = _lexed(printed, fields)
+        except ph.LexError:
+            if text != printed:       # markup the lexer does not read (text with "<"): the strings themselves must agree
+                bad.append((clause.split(' (')[0] + ' (output of expand)', dict(case, expected_output=printed, actual_output=text)))
+            continue
+        try:
+            have = _lexed(text, fields)
+        except ph.LexError as ex:
+            bad.append(('output is not well-formed markup', dict(case, output=text, lexer=str(ex))))
+            continue
+        if want != have:
+            bad.append((clause.split(' (')[0] + ' (output of expand)', dict(case, expected=want, actual=have, expected_output=printed, actual_output=text)))
     return bad
 
 
 def differential(out, name, consts, fields, clause, limit=None, simulate=None, depth=None, cap=None, nontrivial=None):
     """one instance: TLC run of AbbrGrammar with `consts`, every vector replayed through abbreviation.parse()"""
-    c = dict(consts, RepeatLimit=UNLIMITED if limit is None else limit)
+    c = dict(consts, RepeatLimit=UNLIMITED if limit is None else limit, SelfClosingStyle='xhtml')
     kw = dict(constants=c, timeout=3000, heap='8g')
     if simulate:
         kw.update(simulate=simulate, depth=depth, seed=out.seed)
@@ -77,7 +111,7 @@ def differential(out, name, consts, fields, clause, limit=None, simulate=None, d
     notok = [s for s, v in vecs.items() if v['out']['kind'] != 'ok']
     if notok:          # Accepted is an invariant of the model; a vector that is not "ok" means the harness lost track
         raise common.MachineryError('AbbrGrammar printed a vector that the model does not accept: %r' % notok[:3])
-    items = [(s, v['out'], fields, limit, clause) for s, v in vecs.items()]
+    items = [(s, v['out'], fields, limit, clause, v['printed']) for s, v in vecs.items()]
     bad = common.pool_map(_chunk, items, chunk=1500)
     out.add_tlc(name, r, vectors=len(vecs), compared=list(fields), maxRepeat=limit)
     out.traces += len(items)
